@@ -327,6 +327,41 @@ def wl_huge(ctx, rng, case):
     case.nontrivial = True
 
 
+def wl_dense_then_clear(ctx, rng, case):
+    """arrays of 33 000 .. 140 000 bits in which THOUSANDS of different bytes are written (every 8th / 5th / 3rd bit, or random positions)
+    before a clear(): the clear must reach every one of them - and the array must take writes and clears afterwards like a new one"""
+    from probables.utilities import Bitarray
+
+    n = [33000, 40001, 65536, 70000, 100003, 140000][case.index % 6]
+    ba = Bitarray(n)
+    model = bytearray(n)
+    stride = rng.choice([8, 8, 5, 3, 16])
+    case.desc = {"size": n, "kind": "thousands of bytes written, then clear", "stride": stride}
+    pos = list(range(rng.randrange(stride), n, stride)) if rng.random() < 0.7 else rng.sample(range(n), min(n, 9000))
+    for i, p in enumerate(pos):
+        if i % 3:
+            ba.set_bit(p)
+        else:
+            ba[p] = 1
+        model[p] = 1
+    ctx.maximum("most_distinct_bytes_written_before_a_clear", len({p // 8 for p in pos}))
+    ctx.check(ba.num_bits_set() == sum(model), f"num_bits_set differs after {len(pos)} writes on size {n}", got=ba.num_bits_set(), want=sum(model))
+    for rnd in range(3):
+        ba.clear()
+        model = bytearray(n)
+        left = [p for p in pos[:: max(1, len(pos) // 600)] + [0, n - 1] if ba.check_bit(p)]
+        ctx.counters["oracle_evaluations"] += n
+        ctx.check(not left and ba.num_bits_set() == 0 and "1" not in ba.as_string(), f"bits still set after clear() #{rnd + 1} of an array of {n} bits in which "
+                  f"{len({p // 8 for p in pos})} different bytes had been written", still_set=left[:6], num_bits_set=ba.num_bits_set())
+        for p in rng.sample(range(n), 5):
+            ba.set_bit(p)
+            model[p] = 1
+        ctx.check(ba.num_bits_set() == 5 and all(ba.check_bit(p) for p in range(n) if model[p]), f"an array that was cleared does not take writes like a new one (size {n})")
+        ctx.count("full_state_comparisons")
+    ctx.count("dense_then_clear_cases")
+    case.nontrivial = True
+
+
 def wl_many_clears(ctx, rng, case):
     """LONG lives: an array that is written once and then cleared hundreds or tens of thousands of times (a scratch bitmap cleared per
     request) must stay all zero - checked around every power-of-two number of clears - and must still take writes afterwards"""
@@ -370,9 +405,10 @@ PROP = Prop(
         Workload("fill_all", wl_fill_all, quick=6, thorough=60),
         Workload("point_reads", wl_point_reads, quick=60, thorough=6000),
         Workload("huge", wl_huge, quick=8, thorough=64),
+        Workload("dense_then_clear", wl_dense_then_clear, quick=6, thorough=60),
     ],
     assumptions=["values passed to []= are ints/bools, as the signature says",
                  "any of IndexError/ValueError/TypeError counts as 'rejected with an error'"],
-    required=["full_state_comparisons", "rejections_expected", "point_read_histories_beyond_2056_bits", "huge_arrays"],
+    required=["full_state_comparisons", "rejections_expected", "point_read_histories_beyond_2056_bits", "huge_arrays", "dense_then_clear_cases"],
     shards={"quick": 4, "thorough": 16},
 )
